@@ -57,9 +57,9 @@ BUDGET_S = {"quick": 600, "thorough": 3000}
 SH = {"sq": (3, 3), "tall": (3, 2), "wide": (2, 3)}
 SHAPES = ["tall", "wide", "sq"]
 BATCHES = [(), (2,), (1, 2)]
-KINDS = ["mv", "mvr", "mvm", "all", "mat", "math", "mfh", "jac", "hess", "idv"]
+KINDS = ["mv", "mvr", "mvm", "all", "mat", "math", "mfh", "jac", "hess", "idv", "matz"]
 KINDS3 = ["mv", "mvr", "mvm", "all", "mat", "math", "mfh", "jac"]
-SQ_ONLY = ("math", "mfh", "hess", "idv")
+SQ_ONLY = ("math", "mfh", "hess", "idv", "matz")
 NOBATCH = ("jac", "hess", "idv")
 REAL_ONLY = ("jac", "hess")
 UNARY = ["H", "mul2", "mulm3", "rmul"]
@@ -145,12 +145,17 @@ def make_leaf(kind, shp, batch, dtype, g):
         mat = torch.eye(p, dtype=dtype)
         return leaf_classes()["idv"](mat, True), mat
     mat = randn(tuple(batch) + (p, q), dtype, g)
-    if kind in ("math", "mfh"):
+    if kind in ("math", "mfh", "matz"):
         mat = (mat + mat.transpose(-2, -1).conj()) * 0.5
+    if kind == "matz":
+        # H - z I with complex z: conjugate-symmetric off the diagonal, NOT Hermitian (for a real dtype z is real
+        # and the matrix stays symmetric); dense-wrapped, the library decides about the flag itself
+        z = (0.3 + 0.7j) if mat.is_complex() else 0.3
+        mat = mat - z * torch.eye(p, dtype=dtype)
     cls = leaf_classes()
     if kind == "mat":
         op = xt.LinearOperator.m(mat)
-    elif kind == "math":
+    elif kind in ("math", "matz"):
         op = xt.LinearOperator.m(mat)        # Hermiticity detected by the library
     elif kind == "mfh":
         op = cls["mv"](mat, True)
